@@ -159,8 +159,8 @@ _const_cache = {}
 def consts_of(e):
     """names of the uninterpreted constants occurring in a z3 term"""
     i = e.get_id()
-    if i in _const_cache:
-        return _const_cache[i]
+    if i in _const_cache and _const_cache[i][0].eq(e):
+        return _const_cache[i][1]
     out = set()
     stack = [e]
     seen = set()
@@ -177,7 +177,7 @@ def consts_of(e):
             if t.decl().kind() == z3.Z3_OP_UNINTERPRETED:
                 out.add(t.decl().name())
             stack.extend(t.children())
-    _const_cache[i] = out
+    _const_cache[i] = (e, out)       # keep the term alive: z3 re-uses the ids of freed terms
     return out
 
 
@@ -191,8 +191,8 @@ def define(name, formula):
 
 def has_quantifier(e):
     i = e.get_id()
-    if i in _quant_cache:
-        return _quant_cache[i]
+    if i in _quant_cache and _quant_cache[i][0].eq(e):
+        return _quant_cache[i][1]
     res = False
     stack = [e]
     seen = set()
@@ -205,7 +205,7 @@ def has_quantifier(e):
             res = True
             break
         stack.extend(t.children())
-    _quant_cache[i] = res
+    _quant_cache[i] = (e, res)
     return res
 
 
